@@ -30,7 +30,9 @@ SENT = -2           # token for `object()`
 NOITEM = -1
 
 # future / task states
-NOTSUB, PENDING, RUNNING, DONE_OK, DONE_EXC, CANCELLED, KILLED = range(7)
+NOTSUB, PENDING, RUNNING, DONE_OK, DONE_EXC, CANCELLED, KILLED, LOST = range(8)
+# LOST: multiprocessing.Pool / pathos - the worker process died while running the task (its function raised a BaseException that is not an
+# Exception, which pool.worker() does not catch); the pool replaces the worker but the AsyncResult is never completed
 
 
 class Unsupported(Exception):
